@@ -30,6 +30,10 @@ func main() {
 		topoCmd(out, *seed, *tier)
 	case "store":
 		storeCmd(out, *seed, *tier)
+	case "wire":
+		wireCmd(out, *seed, *tier)
+	case "hostile":
+		hostileCmd(out, *seed, *tier)
 	default:
 		fmt.Fprintln(os.Stderr, "unknown command", cmd)
 		os.Exit(2)
